@@ -208,6 +208,9 @@ type c13Rule struct {
 	Segs     []string   `json:"-"`        // pattern segments after /<id>: "lit:<s>", ":name", "*name", "**"
 	Slashes  string     `json:"slashes"`  // "", off, on, no_decode
 	Methods  []string   `json:"methods,omitempty"`
+	Scheme   string     `json:"scheme,omitempty"`   // route condition on the scheme
+	HostIs   string     `json:"host_is,omitempty"`  // route condition: hosts [{type: exact}]
+	Redirect *c13Item   `json:"redirect,omitempty"` // on_error: redirect error handler, `to` = Const followed by the echo
 	Authz    *c13Cond   `json:"authz,omitempty"`
 	Steps    []c13Step  `json:"steps"`
 	Probes   []c13Q     `json:"probes"`
@@ -264,6 +267,14 @@ func c13RulesYAML(rules []c13Rule, upstreamHost string) string {
 			sb.WriteString("      methods: [" + strings.Join(r.Methods, ", ") + "]\n")
 		}
 
+		if r.Scheme != "" {
+			sb.WriteString("      scheme: " + r.Scheme + "\n")
+		}
+
+		if r.HostIs != "" {
+			sb.WriteString("      hosts:\n        - type: exact\n          value: " + yamlSingle(r.HostIs) + "\n")
+		}
+
 		sb.WriteString("    forward_to:\n      host: " + upstreamHost + "\n      rewrite:\n        scheme: http\n")
 		sb.WriteString("    execute:\n      - authenticator: anon\n")
 
@@ -296,12 +307,63 @@ func c13RulesYAML(rules []c13Rule, upstreamHost string) string {
 				sb.WriteString("            " + yamlSingle(it.Name) + ": " + yamlSingle(it.tmpl()) + "\n")
 			}
 		}
+
+		if r.Redirect != nil {
+			sb.WriteString("    on_error:\n      - error_handler: " + r.Redirect.Name + "\n")
+		}
 	}
 
 	return sb.String()
 }
 
-const c13Config = `
+// the redirect error handlers of the catalogue (a redirect handler cannot be reconfigured by a rule):
+// `to` = a constant followed by the echo of one read of the view
+var c13Redirects = []c13Item{
+	{Name: "redir0", Const: "http://login.example.com/"},
+	{Name: "redir1", Const: "http://login.example.com/?o=", Echo: &c13Q{K: "path"}},
+	{Name: "redir2", Const: "http://login.example.com/?o=", Echo: &c13Q{K: "url"}},
+	{Name: "redir3", Const: "http://login.example.com/?r=", Echo: &c13Q{K: "hdr", N: "x-role"}},
+	{Name: "redir4", Const: "http://login.example.com/?s=", Echo: &c13Q{K: "cookie", N: "sid"}},
+	{Name: "redir5", Const: "http://login.example.com/?h=", Echo: &c13Q{K: "hdr", N: "Host"}},
+	{Name: "redir6", Const: "http://login.example.com/?n=", Echo: &c13Q{K: "cap", N: "name"}},
+	{Name: "redir7", Const: "http://login.example.com/?q=", Echo: &c13Q{K: "query"}},
+}
+
+func c13RedirectHandlers() string {
+	var sb strings.Builder
+
+	sb.WriteString("  error_handlers:\n")
+
+	for _, rd := range c13Redirects {
+		sb.WriteString("    - id: " + rd.Name + "\n      type: redirect\n      config:\n        to: " + yamlSingle(rd.redirectTo()) +
+			"\n        code: 302\n")
+	}
+
+	return sb.String()
+}
+
+func (r c13Rule) redirectCoq() string {
+	if r.Redirect == nil {
+		return "None"
+	}
+
+	echo := "None"
+	if r.Redirect.Echo != nil {
+		echo = "(Some " + r.Redirect.Echo.coq() + ")"
+	}
+
+	return "(Some " + vf.CoqPair(vf.CoqStr(r.Redirect.Const), echo) + ")"
+}
+
+func (it c13Item) redirectTo() string {
+	if it.Echo != nil {
+		return it.Const + "{{ " + it.Echo.tmpl() + " }}"
+	}
+
+	return it.Const
+}
+
+var c13Config = `
 serve:
   decision:
     timeout:
@@ -330,7 +392,7 @@ mechanisms:
       config:
         cookies:
           none: none
-`
+` + c13RedirectHandlers()
 
 // ---------------------------------------------------------------- pools
 
@@ -368,7 +430,7 @@ var (
 	c13CapValues  = []string{"abc", "admin", "a b", "A", "a/b", "x.y", "1"}
 	c13ConstVals  = []string{"admin", "abc", "GET", "https", "a.example.com", "123", "x", ""}
 	c13PipeHdrs   = []string{"X-User", "X-Out", "x-lower", "X-Pipe-Role"} // disjoint from the request header names
-	c13PipeCooks  = []string{"pc1", "pc2", "session"}
+	c13PipeCooks  = []string{"pc1", "pc2", "session", "pc1", "pc2", "session", "bad name"} // the last one: a name http.SetCookie rejects
 	c13PipeConsts = []string{"one", "two", "v 1", "a,b", `q"t`, "x;y", "plain", "caf\xc3\xa9"} // never empty: an empty template is a nil template (panic, C19)
 )
 
@@ -504,6 +566,15 @@ func c13GenRule(r *vf.Rand, k int) c13Rule {
 		rl.Methods = []string{"GET", "POST"}
 	}
 
+	// route conditions on what every candidate route reads of the view during lookup
+	if r.Chance(15) {
+		rl.Scheme = vf.Pick(r, []string{"http", "https"})
+	}
+
+	if r.Chance(15) {
+		rl.HostIs = vf.Pick(r, c13Hosts)
+	}
+
 	named := []string{}
 	for _, n := range rl.CapNames {
 		if n != "*" {
@@ -513,6 +584,12 @@ func c13GenRule(r *vf.Rand, k int) c13Rule {
 
 	if r.Chance(45) {
 		rl.Authz = c13GenCond(r, named)
+	}
+
+	// error pipeline: a redirect whose target echoes a read of the view
+	if rl.Authz != nil && r.Chance(45) {
+		rd := vf.Pick(r, c13Redirects)
+		rl.Redirect = &rd
 	}
 
 	// finalizer steps: 0..3; header names may repeat across steps (multi-valued pipeline headers)
@@ -657,6 +734,14 @@ func c13GenReq(r *vf.Rand, rules []c13Rule) c13Case {
 			q.Method = vf.Pick(r, rl.Methods) // otherwise the method constraint is violated on purpose
 		}
 
+		if rl.Scheme != "" && r.Chance(70) {
+			q.TLS = rl.Scheme == "https"
+		}
+
+		if rl.HostIs != "" && r.Chance(70) {
+			q.Host = rl.HostIs
+		}
+
 		if r.Chance(4) { // one segment too few: no rule
 			q.Path = "/" + rl.ID
 			c.Hit = false
@@ -771,16 +856,18 @@ func c13GenReq(r *vf.Rand, rules []c13Rule) c13Case {
 					q.Method = cd.C
 				}
 			case "scheme":
-				q.TLS = cd.C == "https"
+				if c.Rule.Scheme == "" {
+					q.TLS = cd.C == "https"
+				}
 			case "host":
-				if isHost(cd.C) {
+				if isHost(cd.C) && c.Rule.HostIs == "" {
 					q.Host = cd.C
 				}
 			case "query":
 				q.Query = cd.C
 			case "hdr":
 				cn := http.CanonicalHeaderKey(cd.Q.N)
-				if cn == "Host" && isHost(cd.C) {
+				if cn == "Host" && isHost(cd.C) && c.Rule.HostIs == "" {
 					q.Host = cd.C
 				} else if cn != "Host" && cn != "Content-Type" && cn != "Cookie" && cn != "Content-Length" && cd.C != "" {
 					kept := q.Headers[:0:0]
@@ -821,6 +908,14 @@ func c13GenReq(r *vf.Rand, rules []c13Rule) c13Case {
 
 	// the rule matches when the path was built from its pattern and the final method satisfies its constraint
 	if c.Rule != nil && c.Hit && len(c.Rule.Methods) > 0 && !c13In(c.Rule.Methods, q.Method) {
+		c.Hit = false
+	}
+
+	if c.Rule != nil && c.Hit && c.Rule.Scheme != "" && (c.Rule.Scheme == "https") != q.TLS {
+		c.Hit = false
+	}
+
+	if c.Rule != nil && c.Hit && c.Rule.HostIs != "" && c.Rule.HostIs != q.Host {
 		c.Hit = false
 	}
 
@@ -955,6 +1050,7 @@ type c13EObs struct {
 	View   []c13Val `json:"view,omitempty"`
 	HO     *c13HO   `json:"ho,omitempty"`
 	Err    string   `json:"err,omitempty"`
+	Loc    string   `json:"location,omitempty"` // Location of a denial
 }
 
 func (o c13EObs) coq() string {
@@ -963,7 +1059,7 @@ func (o c13EObs) coq() string {
 		view = "(Some " + vf.CoqListOf(o.View, c13Val.coq) + ")"
 	}
 
-	return vf.CoqApp("eob", vf.CoqZ(int64(o.Status)), vf.CoqStr(o.Rule), view, o.HO.coq(), vf.CoqBool(o.Err == ""))
+	return vf.CoqApp("eob", vf.CoqZ(int64(o.Status)), vf.CoqStr(o.Rule), view, o.HO.coq(), vf.CoqBool(o.Err == ""), vf.CoqStr(o.Loc))
 }
 
 func sortPairs(ps [][2]string) [][2]string {
@@ -1130,6 +1226,8 @@ func c13ObserveDecision(app *assembly.HandlerApp, c c13Case) c13EObs {
 	o := c13EObs{Status: statusOf(rec.Code)}
 
 	if o.Status != 0 {
+		o.Loc = rec.Header().Get("Location")
+
 		return o
 	}
 
@@ -1182,6 +1280,8 @@ func c13ObserveProxy(app *assembly.HandlerApp, up *assembly.Upstream, c c13Case)
 	o := c13EObs{Status: statusOf(rec.Code)}
 
 	if o.Status != 0 {
+		o.Loc = rec.Header().Get("Location")
+
 		if len(seen) != 0 {
 			o.Err = "denied, but the upstream saw a request"
 		}
@@ -1281,7 +1381,15 @@ func c13ObserveEnvoy(app *assembly.EnvoyApp, c c13Case) c13EObs {
 
 	ok := resp.GetOkResponse()
 	if ok == nil {
-		return c13EObs{Status: int(resp.GetDeniedResponse().GetStatus().GetCode())}
+		d := c13EObs{Status: int(resp.GetDeniedResponse().GetStatus().GetCode())}
+
+		for _, h := range resp.GetDeniedResponse().GetHeaders() {
+			if h.GetHeader().GetKey() == "Location" {
+				d.Loc = h.GetHeader().GetValue()
+			}
+		}
+
+		return d
 	}
 
 	o := c13EObs{}
@@ -1467,7 +1575,7 @@ func c13Coq(c c13Case, or c13Oracle, o c13Obs) string {
 	if c.Rule != nil && c.Hit {
 		rl := c.Rule
 		rule = "(Some " + vf.CoqApp("rul", vf.CoqStr(rl.ID), c13CoqSlashes(rl.Slashes), coqOptCond(rl.Authz),
-			vf.CoqListOf(rl.Steps, c13Step.coq), vf.CoqListOf(rl.Probes, c13Q.coq), coqPairs(c.Caps)) + ")"
+			vf.CoqListOf(rl.Steps, c13Step.coq), vf.CoqListOf(rl.Probes, c13Q.coq), coqPairs(c.Caps), rl.redirectCoq()) + ")"
 	}
 
 	return vf.CoqApp("cs", c13FxCoq(), lreq, rule, vf.CoqStr(or.escPath), vf.CoqStr(or.ct), vf.CoqStr(or.decBody),
@@ -1490,6 +1598,22 @@ func c13Tags(c c13Case, o c13Obs) ([]string, bool) {
 
 		if c.Rule.Authz != nil {
 			add("authz:" + c.Rule.Authz.Q.K)
+		}
+
+		if c.Rule.Scheme != "" {
+			add("route-condition:scheme")
+		}
+
+		if c.Rule.Redirect != nil {
+			add("on_error:redirect")
+
+			if o.Dec.Loc != "" {
+				add("decision:redirected")
+			}
+		}
+
+		if c.Rule.HostIs != "" {
+			add("route-condition:host")
 		}
 
 		for _, st := range c.Rule.Steps {
@@ -1646,7 +1770,7 @@ func c13Corpus() ([]c13Rule, []c13Case) {
 			Probes: append([]c13Q{q("cap", "name")}, allProbes...)},
 		// 1: C13-F1 — the capture decides (CEL authorizer)
 		{ID: "c1", Path: "/c1/:name", Segs: []string{":name"}, CapNames: []string{"name"}, Authz: &c13Cond{Q: q("cap", "name"), C: "admin"},
-			Probes: allProbes},
+			Redirect: &c13Redirects[1], Probes: allProbes},
 		// 2: C13-F2 — Header() with a lower-case name decides
 		{ID: "c2", Path: "/c2/lit", Segs: []string{"lit:lit"}, Authz: &c13Cond{Q: q("hdr", "x-role"), C: "admin"},
 			Probes: []c13Q{q("hdr", "x-role"), q("hdr", "X-Role"), q("hdr", "X-ROLE")}},
